@@ -1,8 +1,8 @@
 package mon
 
 import (
-	"reflect"
 	"fmt"
+	"reflect"
 	"sort"
 	"strings"
 	"sync/atomic"
@@ -17,7 +17,7 @@ type c16Type struct {
 	WithUses bool
 	Name     string
 	New      func(tag string) any // pointer to struct (valid controller); the tag is per-instance state the actions report
-	Value    func() any // the struct by value (must be rejected)
+	Value    func() any           // the struct by value (must be rejected)
 }
 
 var c16Actions = []string{"index", "create", "store", "show", "edit", "update", "delete"}
@@ -43,6 +43,16 @@ func c16Uses() map[string][]rux.HandlerFunc {
 	return c16NewUses()
 }
 
+// c16Mark is THE middleware factory of this monitor: the per-action middleware of Uses(), the
+// middleware handed to Resource and the group middleware are all closures of this one function
+// literal (as an application's requireRole("admin") / requireRole("editor") are) - different
+// middleware although they share their code.
+//
+//go:noinline
+func c16Mark(kind, id string) rux.HandlerFunc {
+	return func(c *rux.Context) { recOf(c).Ev("%s:%s", kind, id) }
+}
+
 var c16UsesCalls int64
 var c16SharedUses = c16NewUses()
 
@@ -50,9 +60,7 @@ func c16NewUses() map[string][]rux.HandlerFunc {
 	m := map[string][]rux.HandlerFunc{}
 	for _, a := range []string{"Index", "Create", "Store", "Show", "Edit", "Update", "Delete"} {
 		low := strings.ToLower(a)
-		m[a] = []rux.HandlerFunc{func(c *rux.Context) {
-			recOf(c).Ev("mw:%s", low)
-		}}
+		m[a] = []rux.HandlerFunc{c16Mark("mw", low)}
 	}
 	// keys that are no action names (they differ from one by case, or name nothing): never to be attached
 	for _, k := range []string{"index", "SHOW", "eDit", "create", "Destroy", ""} {
@@ -102,7 +110,7 @@ func hasEvent(evs []string, want string) bool {
 }
 
 func runC16(e *Env) {
-	e.Rule = "ALL 256 controller types (128 subsets of {Index, Create, Store, Show, Edit, Update, Delete} x with/without Uses(); Uses() returns a marker middleware for every action incl. unimplemented ones) x base paths {/, /api/, /v1/admin/, /{tenant}/, /{tenant:\\d+}/, /V1/Admin/; inside a group also the empty string, api/, v1/admin/} x inside/outside a Group (single group, nested groups 2+1 middleware, 3 middleware passed to Resource itself: slices with spare capacity), registered on fresh routers several times (every third plain case mounts the same controller type a second time under /second/ on the same router and checks both mounts) (map iteration inside Resource is random), HandleMethodNotAllowed on, cache on/off. Observed: Router.Routes() as (method, path, name) triples, NamedRoutes(), and the answers to 9 methods + 4 method tokens that are not upper case (get, Post, delete, head) x {/res, /res/, /res/create, /res/7, /res/abc-1, /res/create/edit, /res/7/edit, /res/abc-1/edit, /res/7/x, /res/edit, /other}: answering action + id, marker middleware seen, 405 + Allow set, 404. Oracle: the documented seven-row table filtered by the subset (+ the C06 resolution order). Resource(base, T{}) and Resource(base, &string) must panic. Non-trivial: every (type, base, group) combination; distinct by it. Every controller instance carries a tag that its actions report (the answering action must belong to the instance given to that Resource call); Uses() maps also contain keys that are no action names (case variants, empty, unknown) whose middleware must never run. Two fifths of the grouped cases call Use() 2..3 times in the group body before mounting the resource (the group's list then has spare capacity)."
+	e.Rule = "ALL 256 controller types (128 subsets of {Index, Create, Store, Show, Edit, Update, Delete} x with/without Uses(); Uses() returns a marker middleware for every action incl. unimplemented ones) x base paths {/, /api/, /v1/admin/, /{tenant}/, /{tenant:\\d+}/, /V1/Admin/; inside a group also the empty string, api/, v1/admin/} x inside/outside a Group (single group, nested groups 2+1 middleware, 3 middleware passed to Resource itself: slices with spare capacity), registered on fresh routers several times (every third plain case mounts the same controller type a second time under /second/ on the same router and checks both mounts) (map iteration inside Resource is random), HandleMethodNotAllowed on, cache on/off. Observed: Router.Routes() as (method, path, name) triples, NamedRoutes(), and the answers to 9 methods + 4 method tokens that are not upper case (get, Post, delete, head) x {/res, /res/, /res/create, /res/7, /res/abc-1, /res/create/edit, /res/7/edit, /res/abc-1/edit, /res/7/x, /res/edit, /other, and three of them with trailing non-ASCII white space}: answering action + id, marker middleware seen, 405 + Allow set, 404. Oracle: the documented seven-row table filtered by the subset (+ the C06 resolution order). Resource(base, T{}) and Resource(base, &string) must panic. Non-trivial: every (type, base, group) combination; distinct by it. Every controller instance carries a tag that its actions report (the answering action must belong to the instance given to that Resource call); Uses() maps also contain keys that are no action names (case variants, empty, unknown) whose middleware must never run. Two fifths of the grouped cases call Use() 2..3 times in the group body before mounting the resource (the group's list then has spare capacity). All marker middleware (group, Resource, Uses) are closures of one function literal."
 	e.Assumptions = []string{
 		"non-strict mode (the documented table is the non-strict one); base paths end in '/' as documented",
 	}
@@ -150,9 +158,7 @@ func runC16(e *Env) {
 			opts = append(opts, rux.CachingWithNum(3))
 		}
 		router := rux.New(opts...)
-		marker := func(id string) rux.HandlerFunc {
-			return func(c *rux.Context) { recOf(c).Ev("gmw:%s", id) }
-		}
+		marker := func(id string) rux.HandlerFunc { return c16Mark("gmw", id) }
 		if t.Idx%2 == 1 {
 			// the application's own not-found page (no global middleware on these routers)
 			router.NotFound(func(c *rux.Context) {
@@ -291,7 +297,7 @@ func runC16(e *Env) {
 			cfg := RouterCfg{NotAllowed: true, CacheCap: -1}
 			full = strings.ReplaceAll(full, "{tenant}", "acme") // the request spelling
 			full = strings.ReplaceAll(full, `{tenant:\d+}`, "42")
-			paths := []string{full, full + "/", full + "/create", full + "/7", full + "/create/edit", full + "/7/edit", full + "/7/x", "/other", full + "/edit", full + "/abc-1", full + "/abc-1/edit"}
+			paths := []string{full, full + "/", full + "/create", full + "/7", full + "/create/edit", full + "/7/edit", full + "/7/x", "/other", full + "/edit", full + "/abc-1", full + "/abc-1/edit", full + "/create\u00a0", full + "\u3000", full + "/7/edit\u0085"}
 			// (method tokens are case-sensitive: "get", "Post" ... are other methods, they reach no action)
 			for _, path := range paths {
 				for _, method := range append(append([]string{}, AllMethods...), "get", "Post", "delete", "head") {
@@ -306,7 +312,8 @@ func runC16(e *Env) {
 					switch want.Stage {
 					case "direct", "head-get":
 						action := tb.Routes[want.Route].Name
-						d, _ := tb.Routes[want.Route].Pat.RefMatch(strings.TrimRight(path, "/"), 1)
+						np, _ := RefNormalize(path, false) // (trailing slashes and white space are not part of the path)
+						d, _ := tb.Routes[want.Route].Pat.RefMatch(np, 1)
 						id := ""
 						if len(d) > 0 {
 							id = d[0].Params["id"]
@@ -321,12 +328,12 @@ func runC16(e *Env) {
 							return
 						}
 						// the action ran on the controller instance that was handed to Resource for this mount
-					wantInst := fmt.Sprintf("instance:mount%d", mi)
-					if !hasEvent(rec.Events, wantInst) {
-						t.Fail("action-of-another-instance", "%s{%s} base %q: %s %s was answered by %s, but not by the controller instance given to this Resource call (want event %q, events %v)", ct.Name, maskDesc(ct.Mask), base, method, path, action, wantInst, rec.Events)
-						return
-					}
-					// marker middleware: exactly the answering action's (if the controller has Uses)
+						wantInst := fmt.Sprintf("instance:mount%d", mi)
+						if !hasEvent(rec.Events, wantInst) {
+							t.Fail("action-of-another-instance", "%s{%s} base %q: %s %s was answered by %s, but not by the controller instance given to this Resource call (want event %q, events %v)", ct.Name, maskDesc(ct.Mask), base, method, path, action, wantInst, rec.Events)
+							return
+						}
+						// marker middleware: exactly the answering action's (if the controller has Uses)
 						var seen []string
 						var groupEv []string
 						for _, ev := range rec.Events {
